@@ -283,6 +283,87 @@ fn run<T: Fl>(job: &Job, out: &mut JobOut) {
     }
 }
 
+/// The storage of the axis is reused: an interpolator over a *view* of a buffer is queried and
+/// dropped, the buffer is overwritten with another axis of the same length, and a new interpolator is
+/// built over the same view. The second one must return the interpolant of the second axis
+/// (whatever a query path remembers must not be keyed by the address of the axis).
+fn run_reuse(n: usize, first: usize, out: &mut JobOut) {
+    use ndarray::{Array1, ArrayView1};
+    use ndarray_interp::interp1d::{Interp1DBuilder, Linear};
+    let words: Vec<Vec<f64>> = {
+        let mut ws: Vec<Vec<f64>> = vec![vec![]];
+        for _ in 0..n - 1 {
+            ws = ws.iter().flat_map(|w| [1.0, 2.0, 0.5].iter().map(move |h| { let mut v = w.clone(); v.push(*h); v })).collect();
+        }
+        ws
+    };
+    let knots = |w: &[f64]| -> Vec<f64> {
+        let mut x = vec![-1.0];
+        for h in w {
+            x.push(x[x.len() - 1] + h);
+        }
+        x
+    };
+    let y: Vec<f64> = (0..n).map(|i| [1.0, -2.0, 4.0, 0.5, 3.0, -1.0][i % 6]).collect();
+    let data = Array1::from(y.clone());
+    let mut buf: Vec<f64> = knots(&words[first]);
+    let addr = buf.as_ptr() as usize;
+    let query_all = |buf: &Vec<f64>, which: &str, a: usize, b: usize, out: &mut JobOut| {
+        let x = ArrayView1::from(&buf[..]);
+        let ip = match catch(|| Interp1DBuilder::new(data.view()).x(x).strategy(Linear::new()).build()) {
+            Ok(Ok(ip)) => ip,
+            other => {
+                out.violate(format!("reuse:n{n}:{a}->{b}:{which}:build"), format!("build over a view of a reused buffer failed: {:?}", other.map(|r| r.map(|_| ()))), Json::f64s(buf));
+                return;
+            }
+        };
+        out.states += 1;
+        let mut qs: Vec<f64> = buf.clone();
+        for w in buf.windows(2) {
+            qs.push(w[0] + (w[1] - w[0]) * 0.25);
+            qs.push(w[0] + (w[1] - w[0]) * 0.75);
+        }
+        for &q in &qs {
+            let i = bracket_scan(buf, q);
+            let (exact, _) = chord_ref(buf[i], y[i], buf[i + 1], y[i + 1], q);
+            let m = y[i].abs().max(y[i + 1].abs());
+            out.evals += 1;
+            out.transitions += 1;
+            if which == "second" {
+                out.nontrivial += 1;
+            }
+            let got = catch(|| ip.interp_scalar(q));
+            let ok = match &got {
+                Ok(Ok(v)) => err_dd(*v, exact) <= 8.0 * f64::EPSILON * m,
+                _ => false,
+            };
+            out.outcome(if ok { "reuse:agrees" } else { "reuse:differs" });
+            if !ok {
+                out.violate(
+                    format!("reuse:n{n}:{a}->{b}:{which}"),
+                    format!("Linear over a view of a buffer that earlier held another axis: q={q} returned {got:?}, the chord through the bracketing points gives {:e}", exact.to_f64()),
+                    Json::obj(vec![("first_axis", Json::f64s(&knots(&words[a]))), ("second_axis", Json::f64s(&knots(&words[b]))), ("data", Json::f64s(&y)), ("query", Json::Num(q))]),
+                );
+                return;
+            }
+        }
+    };
+    for b in 0..words.len() {
+        if b == first {
+            continue;
+        }
+        // (re)fill with the first axis, query, drop; overwrite with the second, rebuild, query
+        buf.copy_from_slice(&knots(&words[first]));
+        query_all(&buf, "first", first, b, out);
+        buf.copy_from_slice(&knots(&words[b]));
+        assert_eq!(buf.as_ptr() as usize, addr);
+        query_all(&buf, "second", first, b, out);
+    }
+    if out.sample.is_none() {
+        out.sample = Some(Json::obj(vec![("phase", Json::str("axis storage reuse")), ("n", Json::Int(n as i128)), ("first_axis", Json::f64s(&knots(&words[first])))]));
+    }
+}
+
 fn body(ctx: &Ctx) -> (Summary, Meta) {
     let mut jobs = vec![];
     for f32 in [false, true] {
@@ -325,7 +406,7 @@ fn body(ctx: &Ctx) -> (Summary, Meta) {
         }
     }
     let njobs = jobs.len();
-    let sum = run_jobs(
+    let mut sum = run_jobs(
         ctx,
         "linear-exact",
         &jobs,
@@ -340,8 +421,14 @@ fn body(ctx: &Ctx) -> (Summary, Meta) {
             out
         },
     );
+    let reuse_jobs: Vec<(usize, usize)> = [3usize, 4, 5].iter().flat_map(|&n| (0..3usize.pow(n as u32 - 1)).map(move |a| (n, a))).collect();
+    sum.merge(run_jobs(ctx, "axis-storage-reuse", &reuse_jobs, |j| format!("reuse:n{}:first{}", j.0, j.1), |j| {
+        let mut out = JobOut::default();
+        run_reuse(j.0, j.1, &mut out);
+        out
+    }));
     let meta = Meta {
-        rule: "every axis of the alphabet (value-set subsets incl. ulp clusters and far offsets, interval words, long deviation-bounded words, non-dyadic axes, default index axes) x all data lanes x every query {knot, both float neighbours of every knot, quarter points, range ends} x 4 entry points; oracle = exact rational chord through the two knots found by linear scan. Non-trivial = query strictly inside an interval whose two knot values differ.".into(),
+        rule: "every axis of the alphabet (value-set subsets incl. ulp clusters and far offsets, interval words, long deviation-bounded words, non-dyadic axes, default index axes) x all data lanes x every query {knot, both float neighbours of every knot, quarter points, range ends} x 4 entry points; oracle = exact rational chord through the two knots found by linear scan. Non-trivial = query strictly inside an interval whose two knot values differ. Phase axis-storage-reuse: every ordered pair (A, B) of different interval words over {1, 2, 1/2} with 3..5 knots: an interpolator over a view of a buffer holding A is queried at every knot and quarter point and dropped, the buffer is overwritten with B and a second interpolator over the same view is queried; both against the exact chord.".into(),
         bounds: format!("{njobs} (type, axis) jobs; tier {}", ctx.tier.name()),
         assumptions: vec!["tolerance 8 eps max(|y1|,|y2|) (a few ulps of the larger bracketing value)".into()],
         extra: vec![],
